@@ -44,7 +44,7 @@ struct Client {
 	uint64_t write_attempts_turn = 0;
 	InDec in; OutDec od; C10State c10; C19 *c19 = nullptr;
 	// oracle state
-	std::deque<Exp> expq; bool faulty = false; bool closing = false; bool no_expect = false;
+	std::deque<Exp> expq; bool faulty = false; bool answer_write_failed = false; bool closing = false; bool no_expect = false;
 	bool hs_sent = false, hs_ok = false;
 	bool ws_in_frag = false; bool close_frame_seen = false; int close_frame_status = 0; bool http_req_complete = false, http_err_seen = false;
 	JV policy = JV::obj();
@@ -116,7 +116,8 @@ struct World : KernelHooks, ModelHost {
 	struct Entitled { int c; JV fetchid; std::string event, path; bool check_value; uint64_t vhash; };
 	uint64_t model_version = 0, snap_version = ~0ULL;   // snapshots are only taken when something happened since the last one (a connection read byte by byte makes hundreds of reads per message)
 	struct Cand { Model m; bool alive = true; int parent = 0; std::vector<Entitled> entitled; bool entitled_overflow = false; std::map<std::string, int> auth; /* outcome of authenticate requests in this alternative: 1 accepted, 0 refused */ };
-	size_t passwd_in_ledger_mode = 0;
+	size_t passwd_in_ledger_mode = 0; int cur_read_client = -1;
+	void write_failed_for(Client &cl, const std::string &frame);
 	std::map<std::string, uint64_t> shadow_auth_seen;   // authenticate requests consumed after a failed allocation -> number of failures so far
 	void shadow_check_auth(Client &cl, const Frame &f);
 	struct PendingNotify { int c; Frame f; };
